@@ -70,7 +70,7 @@ static void scenario_history(Src &s) {
     econf_file *&kf = objs[oi];
     size_t cmd = s.below(16);
     if (!kf && cmd > 2) cmd = s.below(3);
-    const SecArg &sa = SEC_ARGS[s.below(8)];
+    const SecArg &sa = SEC_ARGS[s.below(N_SEC_ARGS)];
     const std::string &key = hist_keys()[s.below((uint32_t)hist_keys().size())];
     econf_err e = ECONF_SUCCESS;
     switch (cmd) {
